@@ -175,54 +175,75 @@ func ReplayStream(s Stream, crashSeed int64) (digests []string, parts [][]string
 	return digests, parts, ""
 }
 
-// CompareDigests returns the class and a description of the first divergence, or "", "".
-// Class "event_attribute_order": the responses differ only in the order of attributes inside events.
+// Divergence is one class of difference between an original execution and a replica.
+type Divergence struct{ Class, Detail string }
+
+// CompareDigests returns the class and a description of the most serious divergence, or "", "".
 func CompareDigests(a, b []string, pa, pb [][]string) (class, detail string) {
+	ds := CompareDigestsAll(a, b, pa, pb)
+	if len(ds) == 0 {
+		return "", ""
+	}
+	last := ds[len(ds)-1]
+	return last.Class, last.Detail
+}
+
+// CompareDigestsAll scans every block and returns the first occurrence of each class of divergence.
+// Class "event_attribute_order" (responses differ only in the order of attributes inside events)
+// leaves the state identical, so the scan continues past it: it must not mask a later divergence of
+// results or state. Any other class means the replica's state has left the original's; the scan stops.
+func CompareDigestsAll(a, b []string, pa, pb [][]string) (out []Divergence) {
+	seenOrder := false
 	for i := range a {
 		if i >= len(b) {
-			return "short", fmt.Sprintf("replica stopped after %d of %d blocks", len(b), len(a))
+			return append(out, Divergence{"short", fmt.Sprintf("replica stopped after %d of %d blocks", len(b), len(a))})
 		}
-		if a[i] != b[i] {
-			var diff []string
-			orderOnly := true
-			preAnte, otherTx := 0, 0
-			for j := range pa[i] {
-				if j < len(pb[i]) && pa[i][j] != pb[i][j] {
-					name := pa[i][j][:strings.LastIndex(pa[i][j], "=")]
-					na := pa[i][j][strings.LastIndex(pa[i][j], "/"):]
-					nb := pb[i][j][strings.LastIndex(pb[i][j], "/"):]
-					if na != nb {
-						orderOnly = false
-						diff = append(diff, name)
-						if preAnteGasOnly(pa[i][j], pb[i][j]) {
-							preAnte++
-						} else if strings.HasPrefix(name, "tx") {
-							otherTx++
-						}
-					} else {
-						diff = append(diff, name+"(attribute order)")
+		if a[i] == b[i] {
+			continue
+		}
+		var diff []string
+		orderOnly := true
+		preAnte, otherTx := 0, 0
+		for j := range pa[i] {
+			if j < len(pb[i]) && pa[i][j] != pb[i][j] {
+				name := pa[i][j][:strings.LastIndex(pa[i][j], "=")]
+				na := pa[i][j][strings.LastIndex(pa[i][j], "/"):]
+				nb := pb[i][j][strings.LastIndex(pb[i][j], "/"):]
+				if na != nb {
+					orderOnly = false
+					diff = append(diff, name)
+					if preAnteGasOnly(pa[i][j], pb[i][j]) {
+						preAnte++
+					} else if strings.HasPrefix(name, "tx") {
+						otherTx++
 					}
+				} else {
+					diff = append(diff, name+"(attribute order)")
 				}
 			}
-			sort.Strings(diff)
-			if orderOnly {
-				return "event_attribute_order", fmt.Sprintf("block index %d: %v", i, diff)
-			}
-			// the gas of a pre-ante-failed transaction feeds the block gas that the fee market stores,
-			// so "end" and "apphash" differ as a consequence
-			consequence := preAnte > 0
-			for _, d := range diff {
-				if !strings.HasPrefix(d, "tx") && d != "end" && d != "apphash" && !strings.HasSuffix(d, "(attribute order)") {
-					consequence = false
-				}
-			}
-			if consequence && otherTx == 0 {
-				return "pre_ante_failed_tx_gas", fmt.Sprintf("block index %d: gas_used of transactions rejected before the ante handler differs (and with it block gas / app hash): %v", i, diff)
-			}
-			return "result_or_state", fmt.Sprintf("block index %d differs in %v", i, diff)
 		}
+		sort.Strings(diff)
+		if orderOnly {
+			if !seenOrder {
+				seenOrder = true
+				out = append(out, Divergence{"event_attribute_order", fmt.Sprintf("block index %d: %v", i, diff)})
+			}
+			continue
+		}
+		// the gas of a pre-ante-failed transaction feeds the block gas that the fee market stores,
+		// so "end" and "apphash" differ as a consequence
+		consequence := preAnte > 0
+		for _, d := range diff {
+			if !strings.HasPrefix(d, "tx") && d != "end" && d != "apphash" && !strings.HasSuffix(d, "(attribute order)") {
+				consequence = false
+			}
+		}
+		if consequence && otherTx == 0 {
+			return append(out, Divergence{"pre_ante_failed_tx_gas", fmt.Sprintf("block index %d: gas_used of transactions rejected before the ante handler differs (and with it block gas / app hash): %v", i, diff)})
+		}
+		return append(out, Divergence{"result_or_state", fmt.Sprintf("block index %d differs in %v", i, diff)})
 	}
-	return "", ""
+	return out
 }
 
 // SubprocessReplica replays the stream in a child process with a varied environment and returns its digests.
